@@ -18,7 +18,7 @@ import (
 func init() {
 	Registry["C19"] = &Check{
 		Scenarios: c19Scenarios,
-		Rule: "S in {1,2} streams (stream numbers rotating over {0,1,5}, {16,0,65535}, {21,15,0}, {1,17,16} from one history to the next): per stream every sequence of <=2 messages over sizes {20 (header only), 40, 1100 bytes} from a list of eight; each stream's bytes cut into <=3 chunks at every choice of <=2 cut points from {inside the first header, header/body border, inside the body, message border, inside the second header, spanning point}; ALL merges (interleavings) of the per-stream chunk sequences; then EOF. Bursts: between the two chunks of one stream's 40-byte message (cut at 10, 20, 30) a burst of another stream {30, 64, 66, 70, 140 x 1000 bytes, 100 x 1100, 3 x 30000, 192 x 1024, 256 / 257 / 1000 x 40, 300 x 100} arrives, one message per chunk or re-cut into 8000-byte chunks, with or without a short message of a third stream in its middle (stream buffers of 30 KB to 192 KiB). More than sixteen streams: 15, 16, 17 or 20 streams deliver a whole message each behind the stalled first message of stream 0; behind its stalled second message one of them delivers again and a never-seen stream delivers for the first time (either order, four size assignments). A long-lived association: 72 rounds in which a 1 MiB message waits in its stream buffer behind a stalled message of another stream (72 MiB through the buffers in total). No stream information: three messages (40, 1100, 20 bytes) on an association that delivers data without SndRcvInfo, cut at every offset of the first 60 bytes and at later offsets, and in 1-, 7- and 100-byte chunks. Empty reads: after the first k bytes (k = 1..20, 30) of a stream's message a read returns 0 bytes and no error (once or twice), then a whole message of another stream arrives, then the rest. In every other history the application has pinned a writer stream (SetWriterStream): replies still follow their requests. S = 5: the first stream's message (40 or 1100 bytes) in two chunks around whole messages of four other streams with sizes from {40,48,56,80} (all 256 assignments x 24 arrival orders). S = 3: single messages of 20, 40 and 48 bytes per stream with <=1 cut, all merges (thorough: also the general family with <=1 cut). The chunks are fed through the in-memory SCTP backend (partial delivery: a read returns at most the buffer size of the head chunk) to a real diam.Conn created with diam.NewConn over diam.NewSCTPConnBackend, i.e. consumed by the library's own reader loop; the handler records (message, MessageStream()) and answers. One deterministic schedule per history (the quantifier is over chunk histories). Last clause: additionally the deferred-answer grid of C16 (all 16 stream pairs x 0-2 temporarily failing write attempts) and two application goroutines answering requests of streams {3,5} / {0,7} concurrently, every schedule up to preemption bound 2.",
+		Rule: "S in {1,2} streams (stream numbers rotating over {0,1,5}, {16,0,65535}, {21,15,0}, {1,17,16} from one history to the next): per stream every sequence of <=2 messages over sizes {20 (header only), 40, 1100 bytes} from a list of eight; each stream's bytes cut into <=3 chunks at every choice of <=2 cut points from {inside the first header, header/body border, inside the body, message border, inside the second header, spanning point}; ALL merges (interleavings) of the per-stream chunk sequences; then EOF. Bursts: between the two chunks of one stream's 40-byte message (cut at 10, 20, 30) a burst of another stream {30, 64, 66, 70, 140 x 1000 bytes, 100 x 1100, 3 x 30000, 192 x 1024, 256 / 257 / 1000 x 40, 300 x 100} arrives, one message per chunk or re-cut into 8000-byte chunks, with or without a short message of a third stream in its middle (stream buffers of 30 KB to 192 KiB). More than sixteen streams: 15, 16, 17 or 20 streams deliver a whole message each behind the stalled first message of stream 0; behind its stalled second message one of them delivers again and a never-seen stream delivers for the first time (either order, four size assignments). A long-lived association: 72 rounds in which a 1 MiB message waits in its stream buffer behind a stalled message of another stream (72 MiB through the buffers in total). No stream information: three messages (40, 1100, 20 bytes) on an association that delivers data without SndRcvInfo, cut at every offset of the first 60 bytes and at later offsets, and in 1-, 7- and 100-byte chunks. Empty reads: after the first k bytes (k = 1..20, 30) of a stream's message a read returns 0 bytes and no error (once or twice), then a whole message of another stream arrives, then the rest - also with CloseNotify requested on the association beforehand. In every other history the application has pinned a writer stream (SetWriterStream): replies still follow their requests. S = 5: the first stream's message (40 or 1100 bytes) in two chunks around whole messages of four other streams with sizes from {40,48,56,80} (all 256 assignments x 24 arrival orders). S = 3: single messages of 20, 40 and 48 bytes per stream with <=1 cut, all merges (thorough: also the general family with <=1 cut). The chunks are fed through the in-memory SCTP backend (partial delivery: a read returns at most the buffer size of the head chunk) to a real diam.Conn created with diam.NewConn over diam.NewSCTPConnBackend, i.e. consumed by the library's own reader loop; the handler records (message, MessageStream()) and answers. One deterministic schedule per history (the quantifier is over chunk histories). Last clause: additionally the deferred-answer grid of C16 (all 16 stream pairs x 0-2 temporarily failing write attempts) and two application goroutines answering requests of streams {3,5} / {0,7} concurrently, every schedule up to preemption bound 2.",
 		Assume: []string{"the in-memory backend models one-to-one-socket recvmsg partial delivery (hook diam/sctp_verif.go, build tag verif)", "single default schedule per history"},
 		QuickBudget: 150, ThoroughBudget: 2400,
 	}
@@ -218,6 +218,10 @@ func c19Run(cfgs []streamCfg, order []int) string {
 		dc, err := diam.NewConn(msc, "peer", mux, dict.Default)
 		if err != nil {
 			panic(err)
+		}
+		if c19CloseNotify {
+			// the application asked to be told when the association ends (before anything arrives)
+			dc.(diam.CloseNotifier).CloseNotify()
 		}
 		if len(order)%2 == 0 {
 			// every other history: the application has pinned a writer stream for its own traffic
@@ -599,11 +603,15 @@ func c19Many(r *SeqResult) {
 // header, 20, 30 inside the body), then a read comes back empty - 0 bytes, no error, as a
 // non-blocking or interrupted receive does - then a whole message of another stream arrives, then
 // the rest of the first one. With and without a second empty read before the rest.
+// c19CloseNotify: the histories run while it is set request CloseNotify on the association first
+var c19CloseNotify = false
+
 func c19EmptyRead(r *SeqResult) {
 	saved := c19Streams
-	defer func() { c19Streams = saved; r.Capped += c19Capped; c19Capped = 0 }()
-	for _, streams := range [][]uint16{{1, 2}, {0, 7}, {9, 0}} {
+	defer func() { c19Streams = saved; c19CloseNotify = false; r.Capped += c19Capped; c19Capped = 0 }()
+	for si, streams := range [][]uint16{{1, 2}, {0, 7}, {9, 0}, {1, 2}} {
 		c19Streams = streams
+		c19CloseNotify = si == 3 // the fourth pass: the same histories with CloseNotify requested on the association
 		for k := 1; k <= 30; k++ {
 			if k > 20 && k != 30 {
 				continue
